@@ -34,12 +34,15 @@ type semSpec struct {
 	Extra func(c *Ctx, sc *semCase, obs map[string]observation)
 	// PerRun is run after each execution of a source (independent oracles on the real observation).
 	PerRun func(c *Ctx, sc *semCase, src string, v semVerdict)
+	// Post runs after all cases (model sensitivity runs etc.).
+	Post func(c *Ctx) error
 	// Pre runs further machines before the generator; their cases (other "gen" values) go to Side.
 	Pre  func(c *Ctx, feed func(json.RawMessage)) error
 	Side map[string]func(c *Ctx, raw json.RawMessage)
 }
 
 type semRun struct {
+	Module     string // default: the spec's module
 	Cfg        string
 	Simulate   int // 0 = exhaustive BFS
 	Depth      int
@@ -81,7 +84,11 @@ func runSemSpec(c *Ctx, s *semSpec) error {
 		if !exh {
 			allExh = false
 		}
-		_, err = c.mustTLC(s.Module+"/"+r.Cfg, TLCOpts{Module: s.Module, Cfg: r.Cfg, Workers: w, Simulate: r.Simulate, Depth: r.Depth,
+		mod := s.Module
+		if r.Module != "" {
+			mod = r.Module
+		}
+		_, err = c.mustTLC(mod+"/"+r.Cfg, TLCOpts{Module: mod, Cfg: r.Cfg, Workers: w, Simulate: r.Simulate, Depth: r.Depth,
 			Seed: c.Seed, Timeout: 45 * time.Minute}, exh, pool.feed)
 		if err != nil {
 			break
@@ -92,7 +99,29 @@ func runSemSpec(c *Ctx, s *semSpec) error {
 	if err == nil && s.TraceCtx > 0 {
 		err = semTraceCtx(c, s)
 	}
+	if err == nil && s.Post != nil {
+		err = s.Post(c)
+	}
 	return err
+}
+
+// evalCtlSensitivity: EvalCtl.tla with each deviation switch on must violate its theorems.
+func evalCtlSensitivity(devs ...string) func(c *Ctx) error {
+	return func(c *Ctx) error {
+		sens := map[string]string{}
+		for _, d := range devs {
+			r, err := RunTLC(TLCOpts{Module: "EvalCtl", Cfg: "EvalCtl.dev_" + d + ".cfg", Workers: 4, Seed: c.Seed, Timeout: 10 * time.Minute, NoCases: true}, nil)
+			if err != nil {
+				return err
+			}
+			if r.Violated == "" {
+				return fmt.Errorf("EvalCtl.tla with deviation %s no longer violates its theorems", d)
+			}
+			sens[d] = r.Violated
+		}
+		c.extra["model_sensitivity_evalctl"] = sens
+		return nil
+	}
 }
 
 // semTraceCtx renders the kept cases one by one with the tracer on and validates the recorded
@@ -194,15 +223,17 @@ func srcToks(sc *semCase, mode string) []string {
 func init() {
 	registerSem(semSpec{
 		ID: "C08", Module: "GenLoops", CheckLog: false,
-		Quick:    []semRun{{Cfg: "GenLoops.quick.cfg", Workers: 8}},
-		Thorough: []semRun{{Cfg: "GenLoops.thorough.cfg", Workers: 12}},
+		Quick:    []semRun{{Cfg: "GenLoops.quick.cfg", Workers: 8}, {Module: "EvalCtl", Cfg: "EvalCtl.loops.cfg", Workers: 8}},
+		Thorough: []semRun{{Cfg: "GenLoops.thorough.cfg", Workers: 12}, {Module: "EvalCtl", Cfg: "EvalCtl.loops5.cfg", Workers: 12}},
+		Post:     evalCtlSensitivity("breakdrops"),
 		Rule:     "GenLoops.tla: 28 iterables (array literals of length 0..3, []interface{}, []int, [2]int, []string, range/between/until, a custom Iterator, Go maps and hash literals, five ways of being nil, six non-iterable kinds) x every loop body of up to MaxLen statements over 12 building blocks (emit value/key/text, if+break and if+continue with and without text before them, else branch, nested loop before/after, nested loop with its own break, function literal, return); expected output from the reference semantics, map loops as a set of admissible orders; for control-free bodies the model also emits the UNROLLED program and TLC checks loop = unrolled (UnrollTheorem); both are rendered by real plush. distinct_nontrivial = distinct (iterable, body) shapes with a specified outcome.",
 		Assume:   []string{"return inside a loop body contributes its value and ends the iteration (pinned by the repository's Test_Render_For_Array_Return)", "break inside a loop over a map is order dependent and only checked for totality"},
 	})
 	registerSem(semSpec{
 		ID: "C16", Module: "GenFuncs", CheckLog: true,
-		Quick:    []semRun{{Cfg: "GenFuncs.quick.cfg", Workers: 8}},
-		Thorough: []semRun{{Cfg: "GenFuncs.thorough.cfg", Workers: 12}},
+		Quick:    []semRun{{Cfg: "GenFuncs.quick.cfg", Workers: 8}, {Module: "EvalCtl", Cfg: "EvalCtl.calls.cfg", Workers: 8}},
+		Thorough: []semRun{{Cfg: "GenFuncs.thorough.cfg", Workers: 12}, {Module: "EvalCtl", Cfg: "EvalCtl.calls5.cfg", Workers: 12}},
+		Post:     evalCtlSensitivity("flattenone", "retendsblock"),
 		Rule:     "GenFuncs.tla: functions of 0..MaxParams parameters whose bodies are if/return decision chains (conditions: parameter truthy / falsy / equal to another parameter; results: a parameter or a literal; a probe after every link and after the final return) x every argument tuple over a pool that includes caller variables named like the callee's parameters x six uses of the result (emit, condition, ==, let, argument of a Go helper, call through a parameter of a higher-order function). TLC checks ChainTheorem (value of the call = declarative first-match reading of the chain; probes after the first return reached never run; scope depth restored). Real plush must render the model's output and record the model's probe sequence. distinct_nontrivial = distinct (use, arity, chain length) shapes with specified outcome.",
 	})
 	registerSem(semSpec{
